@@ -59,6 +59,10 @@ class Ctx {
     [[noreturn]] void fail(const std::string &kind, const std::string &detail);
     void ok();                                     // final verdict ok (child then exits 0)
     void sample(const std::string &text);          // batch mode: an example sub-case for evidence
+    // in-process use (libFuzzer driver): verdicts are thrown instead of ending the process, reports are collected here
+    struct Inproc { bool active = false; bool done = false; std::string kind, detail; int step = -1; bool nontrivial = false; std::vector<std::string> labels; long evals = 1; };
+    static Inproc &inproc();
+    struct CaseEnd {};
   private:
     void send(const std::string &line);
     int fd_;
